@@ -119,7 +119,7 @@ def run(v) -> None:
     v.add_tlc(tlc.must_pass(tlc.run("MC_Moments", "MC_Moments.cfg" if not quick else "MC_Moments_q.cfg", workers=12, timeout=3000),
                             "MC_Moments"), "MC_Moments")
     hists = []
-    maxlen = 6 if quick else 8
+    maxlen = 6 if quick else 9
 
     def stream_for(cls, L, C):
         if cls == "const":
